@@ -21,7 +21,7 @@ func init() {
 			"non-trivial = AST depth >= 2 and the reference evaluator decided the case (value or error); distinct by AST rendering + scope hash",
 		Assumptions: []string{"go-cty conversion and unification (convert.Convert, UnifyUnsafe), number-to-string formatting and structural equality are the definition of the value domain", "arithmetic is carried out on 512-bit big.Float as the value domain does; the harness function bodies are shared with the reference evaluator, which does its own argument mapping"},
 		Quick:       Plan{Batches: 16, PerBatch: 4000, MinNonTrivial: 30000},
-		Thorough:    Plan{Batches: 64, PerBatch: 12000, MinNonTrivial: 300000},
+		Thorough:    Plan{Batches: 64, PerBatch: 48000, MinNonTrivial: 300000},
 		Case:        c01Case,
 	})
 }
